@@ -34,7 +34,13 @@ Definition len_lt (n : Z) (lim : option Z) : bool := match lim with None => true
 
 Inductive wres := WOk | WOutOfResources | WPanic.
 
-(* step 1 of write_w_timestamp: implicit registration of an unknown instance *)
+(* write_w_timestamp tests all three limits BEFORE anything is stored (repo commit 3010f06) and
+   pushes the record of an unknown instance only afterwards.  w_register is the instance list as
+   it will be after that deferred push (None = the max_instances test refuses); the two sample
+   tests are evaluated on it, which gives the same verdicts as the code's tests on the list
+   before the push (the pushed record has no samples: `.map(|s| s.samples.len()).unwrap_or(0)`
+   and the total are the same — lemma w_tests_before_push).  A refused write returns the
+   state unchanged. *)
 Definition w_register (w : writer) (h : Z) : option (list winst) :=
   if existsb (fun x => wi_h x =? h) (w_insts w) then Some (w_insts w)
   else if len_lt (Z.of_nat (length (w_insts w))) (wq_mi (w_qos w)) then Some (w_insts w ++ [mkWI h None []])
@@ -59,9 +65,8 @@ Definition w_write (w : writer) (h data ts now : Z) : writer * wres :=
   match w_register w h with
   | None => (w, WOutOfResources)
   | Some insts1 =>
-    let w1 := mkW insts1 (w_seq w) (w_changes w) q in
-    if w_mspi_hit q insts1 h then (w1, WOutOfResources) else
-    if w_ms_hit q insts1 then (w1, WOutOfResources) else
+    if w_mspi_hit q insts1 h then (w, WOutOfResources) else
+    if w_ms_hit q insts1 then (w, WOutOfResources) else
     let seq := w_seq w + 1 in
     match find_wi h insts1 with
     | None => (mkW insts1 seq (w_changes w) q, WPanic)      (* expect("Instance info must exist") *)
